@@ -524,6 +524,41 @@ def r8_handoff_queue_is_lossless(ctx):
         R.check(bool(x.calls_to(r"poll_next(_unpin)?$")), "C18.R8", "MaybePendingFutures::poll_next:delegates", "poll_next polls the inner FuturesUnordered", "MaybePendingFutures::poll_next no longer polls the queued futures", "%s:%d" % (x.file, x.lo))
 
 
+
+def r9_one_ordered_queue_into_the_send_task(ctx):
+    """`identifiers of finished work can never capture a later message`: a SubscriptionClosed emitted by the read task
+    carries only the subscription id, so it must be handled before any later front-end message (a subscribe whose new
+    subscription may be given the same id by the server). That order is the FIFO of *one* channel: wherever the tasks are
+    spawned, the read task's `to_send_task` sender is a clone of the very channel the front end writes to (`to_back`), and
+    send_task has a single place where it takes messages for handle_frontend_messages."""
+    F, R = ctx.F, ctx.R
+    tr = ctx.tracer(follow_callers=False, follow_fields=False, inline_calls=False)
+    n = 0
+    for b in F.real_bodies():
+        if b.crate != CORE or is_test_body(b):
+            continue
+        rtp = [(bi, st) for bi, blk in enumerate(b.blocks) if not blk.get("cleanup") for st in blk["st"] if st["s"] == "assign" and st["rv"]["k"] == "agg" and (st["rv"].get("adt") or "").endswith("async_client::ReadTaskParams") and "to_send_task" in st["rv"]["fields"]]
+        if not rtp:
+            continue
+        R.fn(b)
+        def chan(op):
+            return {l.detail.get("bb") for l in tr.origins(b, op) if l.kind == "call" and re.search(r"mpsc::channel$", l.detail.get("callee") or "")}
+        front = set()
+        for bi, blk in enumerate(b.blocks):
+            for st in blk["st"]:
+                if st["s"] == "assign" and st["rv"]["k"] == "agg" and (st["rv"].get("adt") or "").endswith("async_client::Client") and "to_back" in st["rv"]["fields"]:
+                    front |= chan(st["rv"]["ops"][st["rv"]["fields"].index("to_back")])
+        for bi, st in rtp:
+            n += 1
+            mine = chan(st["rv"]["ops"][st["rv"]["fields"].index("to_send_task")])
+            R.check(bool(mine) and bool(front) and mine == front, "C18.R9", "%s:read-task-shares-front-channel" % fkey(b), "the read task reports into the front end's own channel", "%s gives the read task a channel of its own to the send task: its SubscriptionClosed messages are no longer ordered with the front end's messages, so a stale close can be handled after a later subscribe and end a new subscription that was given the same id" % short(b.path), "%s:%d" % (b.file, st["sp"][0]))
+    R.floor("C18.R9", n, 1, "places that spawn the read task")
+    st_b = F.one(r"^jsonrpsee_core::client::async_client::send_task::\{closure#0\}$")
+    R.fn(st_b)
+    hf = [c for c in st_b.calls if re.search(r"async_client::handle_frontend_messages$", c.name() or "")]
+    R.check(len(hf) == 1, "C18.R9", "send_task:one-intake", "send_task has one intake for handle_frontend_messages", "send_task feeds handle_frontend_messages from %d places: messages from different sources are no longer handled in one order" % len(hf), where(hf[1]) if len(hf) > 1 else "%s:%d" % (st_b.file, st_b.lo))
+
+
 def rarr_every_element(ctx):
     """an array message is processed element by element to the end"""
     from .common import array_elements_all_processed
@@ -541,7 +576,7 @@ def _borrowed(modname, fname):
 
 
 # 'identifiers of finished work can never capture a later message' / 'retains no state': completion removes exactly the keyed entry (C03.R4), a refused insert changes nothing (C05.R6)
-BORROWED = [_borrowed("c03", "r4_completion_consumes"), _borrowed("c05", "r6_refused_insert_is_pure"), _borrowed("c05", "r14_classifiers_accept_any_payload"), _borrowed("c05", "rcancel_receive_is_cancel_safe")]
+BORROWED = [_borrowed("c03", "r4_completion_consumes"), _borrowed("c05", "r6_refused_insert_is_pure"), _borrowed("c05", "r14_classifiers_accept_any_payload"), _borrowed("c05", "rcancel_receive_is_cancel_safe"), _borrowed("c05", "r1_classifier_agreement")]
 
 
 
@@ -551,7 +586,7 @@ def rkeys_manager_keys_not_derived(ctx):
     manager_keys_not_derived(ctx, "C18.KEYS")
 
 
-RULES = [r7_failed_write_ends_the_task, r8_handoff_queue_is_lossless, r1_effect_summaries, r2_ledger, r3_notification_arms, r4_lost_drop_is_recovered, r5_no_unaccounted_success_path, r6_no_state_outside_the_manager, rarr_every_element, rkeys_manager_keys_not_derived] + BORROWED
+RULES = [r9_one_ordered_queue_into_the_send_task, r7_failed_write_ends_the_task, r8_handoff_queue_is_lossless, r1_effect_summaries, r2_ledger, r3_notification_arms, r4_lost_drop_is_recovered, r5_no_unaccounted_success_path, r6_no_state_outside_the_manager, rarr_every_element, rkeys_manager_keys_not_derived] + BORROWED
 
 LEVEL_TEXT = (
     "A ledger over the client's four private tables decided from the type-checked program: per-method effect summaries "
